@@ -52,8 +52,8 @@ def classify(ctx, sig_prefix, label, expr, real_wire, real_error, answer, counts
         # the larger fragment of the soundness theorem with reductions (loopygen_sound_red_partial)
         fragr = loopygenser.LAST_FRAGMENT_R
         if fragr == "yes":
-            counts["in-proved-fragment(sound, with reductions)"] = \
-                counts.get("in-proved-fragment(sound, with reductions)", 0) + 1
+            counts["in-proved-fragment(with reductions)"] = \
+                counts.get("in-proved-fragment(with reductions)", 0) + 1
         elif fragr:
             for why in fragr[3:].split(","):
                 counts["outside-fragment(with reductions):" + why] = \
@@ -114,8 +114,8 @@ def run_gen_model(ctx, sig_prefix, cases, batch_name="lean-statement-generator-m
                    preprocess_fails=pre_fail, node_kinds=kinds,
                    modelled_fraction=round(1 - counts["unmodelled"] / max(total, 1), 4),
                    proved_fragment_fraction=round(counts.get("in-proved-fragment", 0) / max(counts["same"], 1), 4),
-                   proved_fragment_fraction_sound_with_reductions=round(
-                       counts.get("in-proved-fragment(sound, with reductions)", 0) / max(counts["same"], 1), 4))
+                   proved_fragment_fraction_with_reductions=round(
+                       counts.get("in-proved-fragment(with reductions)", 0) / max(counts["same"], 1), 4))
     return dis
 
 
